@@ -343,20 +343,23 @@ def run_case(case, rec):
         # the tutorial idiom: the caller's params already hold a (stale) batch for the batched keys, e.g. the first
         # batch drawn when the parameters were created - only the batch carried by THIS call counts
         if case["seed"] % 2 == 0:
+            # ... or an integer placeholder (eq_params={"nu": 1, ...}): whatever the caller left under a batched key,
+            # its value and its type are irrelevant
+            ph = [lambda: jnp.asarray(rng.uniform(2.0, 3.0, (B, 1))), lambda: 1, lambda: jnp.asarray([2])][(case["seed"] // 2) % 3]
             stale = Params(nn_params=params.nn_params,
-                           eq_params={k: (jnp.asarray(rng.uniform(2.0, 3.0, (B, 1))) if k in batched else params.eq_params[k])
-                                      for k in KEYS})
+                           eq_params={k: (ph() if k in batched else params.eq_params[k]) for k in KEYS})
             rec.count("stale_batch_in_caller_params")
+            rec.count("placeholder_form_%d" % ((case["seed"] // 2) % 3))
             try:
                 ts = guard.call(ev, loss, stale, batch)[1]
             except guard.Crash as c:
-                rec.violation(sig + "/stale-batch-in-caller-params/crash", "caller's eq_params hold an earlier batch for %s: %s"
+                rec.violation(sig + "/stale-batch-in-caller-params/crash", "caller's eq_params hold a placeholder / an earlier batch for %s: %s"
                               % (batched, c))
                 ts = None
             for t in (exp if ts is not None else ()):
                 if not close(float(ts[t]), exp[t], 1e-8, 1e-10):
                     rec.violation("%s/%s/stale-batch-in-caller-params" % (sig, t),
-                                  "term %s = %r when the caller's eq_params hold an earlier batch for the batched keys %s, "
+                                  "term %s = %r when the caller's eq_params hold a placeholder (earlier batch / integer) for the batched keys %s, "
                                   "expected %r (this call's batch overrides it)" % (t, float(ts[t]), batched, exp[t]))
         # caller's params untouched (eager call: under jit the function only sees a copy of the containers)
         if case["seed"] % 3 == 0:
